@@ -299,11 +299,11 @@ let match_mode dir =
             (match parse is_ws p with
              | None -> print_endline "NONE"
              | Some (fl, r) ->
-                 if fl.fl_i then print_endline "CI"
-                 else
+                 (* the verified matcher at the engine denotations (ExecCi.v: fold table and class tables
+                    are the generated Coq constants); case-insensitive when the pattern carries (?i) *)
                    print_endline (String.concat ";" (List.map (fun h ->
-                     let full = matches_whole_cs cls_b h r in
-                     let fnd = (match find_leftmost_cs cls_b h r with
+                     let full = matches_whole_engine fl.fl_i h r in
+                     let fnd = (match find_leftmost_engine fl.fl_i h r with
                                 | None -> "-"
                                 | Some (i, js) -> Printf.sprintf "%d:%s" (int_of_nat i) (String.concat "," (List.map (fun j -> string_of_int (int_of_nat j)) js))) in
                      Printf.sprintf "%s/%s" (if full then "1" else "0") fnd) hs)))
